@@ -84,8 +84,13 @@ RECURSIVE FirstHolding(_, _, _)
 FirstHolding(list, v, P) == IF list = <<>> THEN "?"
                             ELSE IF ValFits(v, list[1], P) THEN list[1]
                             ELSE FirstHolding(Tail(list), v, P)
-\* "?" : no type of the list can represent the value (ill-formed / extended type): never generated
-IntLitType(l, P) == FirstHolding(IntLitCandidates(l, P), INat(IntLitValue(l)), P)
+\* "?" : no type of the list can represent the value (ill-formed / extended type): never generated.
+\* Microsoft's compiler (and clang in its compatibility mode) keeps a non-decimal literal with suffix ll / i64 signed
+\* even if only unsigned long long can represent it - a documented deviation from the ISO table: left open.
+IntLitType(l, P) ==
+  LET t == FirstHolding(IntLitCandidates(l, P), INat(IntLitValue(l)), P)
+      k == SuffixKind(l.suffix)
+  IN  IF P.msvc /\ k.len = "ll" /\ ~k.u /\ t = "ullong" THEN "?" ELSE t
 
 --------------------------------------------------------------------------
 (* Character literals: [prefix, elems]; prefix in <<>>, <<"L">>, <<"u">>,    *)
